@@ -32,6 +32,7 @@
 #include <time.h>
 #include <asm/prctl.h>
 #include <termios.h>
+#include <utmp.h>
 #include <grp.h>
 
 extern char **environ;
@@ -65,6 +66,7 @@ static int nfake = 0; static long fake_pid[MAXFAKE]; static char *fake_path[MAXF
 static int fake_status_on = 0;
 static char *fake_cgroup = 0;          /* /proc/<own pid>/cgroup -> file */
 static char *fake_hosts = 0;           /* /etc/hosts -> file */
+static char *alt_utmp = 0;             /* utmpname() file written by the construction */
 FILE *fopen(const char *path, const char *mode) {
     static FILE *(*real)(const char *, const char *) = 0;
     if (!real) real = (FILE *(*)(const char *, const char *))dlsym(RTLD_NEXT, "fopen");
@@ -187,10 +189,21 @@ static void measure_and_run(struct job *j) {
           if (dup) continue; if (!first) fputc(',', o); put_hexs(o, ownpath[fd]); fprintf(o, ":%u", owner[fd]); first = 0; }
       if (first) fputs("[]", o); }
     fputc('\t', o);
-    /* login: /proc/self/loginuid, then the passwd file (glibc's rule: unset -> fails; uid without entry -> utmp of fd 0, not constructed here) */
+    /* login: /proc/self/loginuid, then the passwd file (glibc's rule: unset -> fails; uid without entry -> utmp entry of the terminal on fd 0) */
     {
         char *lu = slurp("/proc/self/loginuid", 0); char *nm = 0;
-        if (lu) { unsigned long u = strtoul(lu, 0, 10); if (u != 4294967295UL) nm = db_name("/etc/passwd", u); }
+        int unset = 0;
+        if (lu) { unsigned long u = strtoul(lu, 0, 10); if (u != 4294967295UL) nm = db_name("/etc/passwd", u); else unset = 1; }
+        /* glibc: an unset login uid ends the search (ENXIO); a login uid without passwd entry falls back to utmp */
+        if (!nm && !unset && alt_utmp && isatty_[0] && !strncmp(ownpath[0], "/dev/", 5)) {
+            /* then the utmp entry of the terminal on fd 0 (read by hand from the file this harness wrote) */
+            size_t n = 0; char *ub = slurp(alt_utmp, &n);
+            for (size_t off = 0; ub && off + sizeof(struct utmp) <= n && !nm; off += sizeof(struct utmp)) {
+                struct utmp *u = (struct utmp *)(ub + off);
+                if ((u->ut_type == USER_PROCESS || u->ut_type == LOGIN_PROCESS) && !strncmp(u->ut_line, ownpath[0] + 5, sizeof u->ut_line)) nm = strndup(u->ut_user, sizeof u->ut_user);
+            }
+            free(ub);
+        }
         put_hexs(o, nm); free(lu); free(nm);
     }
     fputc('\t', o);
@@ -266,6 +279,7 @@ static void measure_and_run(struct job *j) {
                 else if (pass == 3) { name = "datetime"; args = fmts.v; nargs = fmts.isnull ? 0 : fmts.n; }
                 else { name = "snoopy_literal"; args = lits.v; nargs = lits.isnull ? 0 : lits.n; }
                 if (!strcmp(name, "systemd_unit_name") && sz < 64) continue;   /* reads entry+16: needs the >= 256-byte buffers snoopy passes */
+                if (!strcmp(name, "ipaddr") && sz < 64 && alt_utmp) continue;    /* strlen() of a buffer inet_ntop left alone: same */
                 if (only) { char pat[80]; snprintf(pat, sizeof pat, ",%s,", name); char hay[2048]; snprintf(hay, sizeof hay, ",%s,", only); if (!strstr(hay, pat)) continue; }
                 for (size_t a = 0; a < nargs; a++) {
                     const char *arg = args[a];
@@ -349,6 +363,17 @@ static void construct_and_run(int nf, char **f) {
         int m, s; if (openpty(&m, &s, 0, 0, 0)) die("openpty1");
         if (fchown(s, (uid_t)strtoul(v + 4, 0, 10), (gid_t)-1)) die("fchown-pty1");
         dup2(s, 1); if (s > 2) close(s); int hm = fcntl(m, F_DUPFD, 220); close(m); (void)hm;
+    }
+    /* alternate utmp file (utmpname) with one USER_PROCESS entry for the terminal on fd 0: "utmp=<32 hex digits of ut_addr_v6>" */
+    if ((v = kv(nf, f, "utmp"))) {
+        char tn[128]; if (ttyname_r(0, tn, sizeof tn) == 0 && !strncmp(tn, "/dev/", 5)) {
+            struct utmp u; memset(&u, 0, sizeof u); u.ut_type = USER_PROCESS; u.ut_pid = getpid();
+            strncpy(u.ut_line, tn + 5, sizeof u.ut_line - 1); strncpy(u.ut_user, "verifuser", sizeof u.ut_user - 1);
+            unsigned char *a = (unsigned char *)u.ut_addr_v6;
+            for (int i = 0; i < 16 && v[2 * i] && v[2 * i + 1]; i++) a[i] = (unsigned char)(hexval(v[2 * i]) * 16 + hexval(v[2 * i + 1]));
+            char p[PATH_MAX]; snprintf(p, sizeof p, "%s/utmp", dir); spit(p, (const char *)&u, sizeof u);
+            chmod(p, 0644); utmpname(p); alt_utmp = strdup(p);
+        }
     }
     /* session / process group / ancestor chain: done by forking further; the leaf runs the sources */
     const char *sess = kv(nf, f, "sess"); const char *chain = kv(nf, f, "chain");
